@@ -319,7 +319,9 @@ class GriffeLoader:
 
         # First we expand wildcard imports and store the objects in a temporary `expanded` variable,
         # while also keeping track of the members representing wildcard import, to remove them later.
-        for member in obj.members.values():
+        # Loading external packages and expanding wildcards in other modules (below)
+        # can add or remove members of this very object: iterate on a copy.
+        for member in list(obj.members.values()):
             # Handle a wildcard.
             if member.is_alias and member.wildcard:  # type: ignore[union-attr]
                 package = member.wildcard.split(".", 1)[0]  # type: ignore[union-attr]
@@ -365,7 +367,9 @@ class GriffeLoader:
 
         # Then we remove the members representing wildcard imports.
         for name in to_remove:
-            obj.del_member(name)
+            # A nested expansion could have removed it already.
+            with suppress(KeyError):
+                obj.del_member(name)
 
         # Finally we process the collected objects.
         for new_member, alias_lineno, alias_endlineno in expanded:
